@@ -133,3 +133,4 @@ def shrink(case):
                     if x["id"] == "main":
                         x["data"] = bytes(b).hex()
                 yield c
+    yield from common.shrink_buffers(case, ("main",))
